@@ -45,6 +45,24 @@ func Render(doc *nast.Document, lay *Layout) string {
 	return w.finish()
 }
 
+// Info is what the renderer knows about the text it produced.
+type Info struct {
+	// NameAfterMultiByteIgnored: some NAME token (name, keyword, enum value,
+	// true/false) is immediately preceded by an ignored run (comment, BOM)
+	// holding a multi-byte character. That is the input class of the library
+	// lexer's offset defect D6 (DESIGN.md 1.3): the library mis-lexes such
+	// text, so its verdict on it says nothing about the generator.
+	NameAfterMultiByteIgnored bool
+	Tokens                    int // lexical tokens written
+}
+
+// RenderInfo is Render plus what the renderer knows about the text.
+func RenderInfo(doc *nast.Document, lay *Layout) (string, Info) {
+	w := newRenderer(lay)
+	w.document(doc)
+	return w.finish(), Info{NameAfterMultiByteIgnored: w.d6, Tokens: w.ntok}
+}
+
 // RenderValue writes a lone value (spans as for Render).
 func RenderValue(v nast.Node, lay *Layout) string {
 	w := newRenderer(lay)
